@@ -235,4 +235,6 @@ def check(run, cases=None):
 
 
 def replay(run, rep):
+    if 'case' not in (rep.get('case') or {}):
+        return check(run)          # (a violation found along a history: the histories are regenerated from the seed and replayed as a whole)
     check(run, cases=[rep['case']['case']])
